@@ -342,8 +342,13 @@ func generic(v any) any {
 	return out
 }
 
+// DiffJSONCut is DiffJSON where a node that either side cut off ({"$cut":true}) matches anything.
+func DiffJSONCut(a, b any, max int) []string { return diffJSON(a, b, max, true) }
+
 // DiffJSON returns up to max JSON-pointer paths at which a and b differ.
-func DiffJSON(a, b any, max int) []string {
+func DiffJSON(a, b any, max int) []string { return diffJSON(a, b, max, false) }
+
+func diffJSON(a, b any, max int, cutWildcard bool) []string {
 	var out []string
 	var rec func(a, b any, path string)
 	rec = func(a, b any, path string) {
@@ -352,6 +357,14 @@ func DiffJSON(a, b any, max int) []string {
 		}
 		am, aok := a.(map[string]any)
 		bm, bok := b.(map[string]any)
+		if cutWildcard {
+			if _, c := am["$cut"]; aok && c {
+				return
+			}
+			if _, c := bm["$cut"]; bok && c {
+				return
+			}
+		}
 		if aok && bok {
 			keys := map[string]bool{}
 			for k := range am {
